@@ -43,10 +43,10 @@ func init() {
 	core.Register(&core.Prop{
 		ID:    "C20",
 		Level: "exploration",
-		Rule: "case = interleaved history of Add, queries and Merge on dataset.Dataset (duplicates, negatives, unsorted arrival, additions after queries, merges of two datasets), reference = the harness's own sorted copy; Lower/UpperQuantile must equal the order statistic at floor/ceil of q(n-1) " +
+		Rule: "case = interleaved history of Add, queries and Merge on dataset.Dataset (duplicates, negatives, unsorted arrival, additions after queries, merges of two datasets - also a dataset with itself and the same argument twice), reference = the harness's own sorted copy; Lower/UpperQuantile must equal the order statistic at floor/ceil of q(n-1) " +
 			"(rank accepted both as the float product and as the exact product), Quantile == lower, NaN when empty or q outside [0,1], Min/Max/Count exact, Sum within the compensated-sum bound, Merge == adding all values; besides whole checkpoints (all queries in a fixed order) the history holds single queries (one of Sum/Count/Lower/Upper/Quantile/Min/Max, q drawn from a few values reused during the case) answered on their own right after additions, and a quarter of the cases draw every value from 2-4 distinct values. Non-trivial = history with an addition after a query and a merge; distinct = hash of the history.",
 		Cases:       core.Scale(120000, 3000000),
-		Mandatory:   []string{"oracle.quantile_checks", "event.add_after_query", "event.merge", "oracle.nan_checks", "oracle.sum_checks", "oracle.minmax_before_quantile_queries", "sign_mode.all_negative", "adversarial_sum_cases", "oracle.single_query_checks", "small_pool_cases"},
+		Mandatory:   []string{"oracle.quantile_checks", "event.add_after_query", "event.merge", "oracle.nan_checks", "oracle.sum_checks", "oracle.minmax_before_quantile_queries", "sign_mode.all_negative", "adversarial_sum_cases", "oracle.single_query_checks", "small_pool_cases", "event.merge_with_itself_after_query"},
 		Assumptions: []string{"q = NaN is outside the stated domain and not sent"},
 		Run:         runC20,
 	})
@@ -785,6 +785,33 @@ func runC20(c *core.Ctx) {
 			c.Logf("check d (n=%d)", len(main.ref))
 			check(main, "d")
 		case 2:
+			if len(main.ref) > 0 && len(main.ref) <= 300 && r.P(0.15) {
+				// a dataset merged with itself: "any two datasets" includes the same one twice; the result holds
+				// every value twice (the argument is read while the receiver grows)
+				c.Logf("d.Merge(d) with %d values", len(main.ref))
+				if c.Guard("Merge(self)", func() { main.d.Merge(main.d) }) {
+					return
+				}
+				main.ref = append(main.ref, main.ref...)
+				merged = true
+				c.Count("event.merge_with_itself", 1)
+				if queried {
+					c.Count("event.merge_with_itself_after_query", 1)
+				}
+				c.SigI(-1)
+				break
+			}
+			if len(others) > 0 && r.P(0.15) {
+				// an earlier argument merged a second time (it may have been sorted by queries since)
+				o := others[r.Intn(len(others))]
+				c.Logf("d.Merge(o) again with %d values", len(o.ref))
+				main.d.Merge(o.d)
+				main.ref = append(main.ref, o.ref...)
+				c.Count("event.merge_again", 1)
+				c.SigI(len(o.ref))
+				check(o, "o")
+				break
+			}
 			o := newDS()
 			for j := 0; j < r.Range(0, 12); j++ {
 				v := drawValue()
